@@ -82,6 +82,15 @@ type c06Case struct {
 	Bin     bool      `json:"bin"`
 	LongOpt bool      `json:"longopt"`
 	FmtVia  string    `json:"fmtvia,omitempty"` // how the date format is given: "" flag, "env", "config"
+	// Clock: the layout has a clock component ("2006-01-02 15:04"): record i is dated S.Days[i] at minute Mins[i], explicit
+	// bounds carry the minutes BMins (global begin, global end, sub-command begin, sub-command end); begin <= t <= end on instants
+	Clock bool   `json:"clock,omitempty"`
+	Mins  []int  `json:"mins,omitempty"`
+	BMins [4]int `json:"bmins,omitempty"`
+}
+
+func c06Inst(day, min int, layout string) string {
+	return strings.TrimSuffix(vFmtDay(day, layout), "00:00") + fmt.Sprintf("%02d:%02d", min/60, min%60)
 }
 
 func c06SortedLines(s string) string {
@@ -91,6 +100,17 @@ func c06SortedLines(s string) string {
 }
 
 func checkC06(c c06Case, ctx *vCtx) *vFailure {
+	if c.Clock {
+		if c.Layout != "2006-01-02 15:04" || len(c.Mins) != len(c.S.Log.Recs) || c.Summary != nil {
+			vFault("C06 clock mode: layout %q, %d records, %d minutes", c.Layout, len(c.S.Log.Recs), len(c.Mins))
+		}
+		recs := append([]vRec{}, c.S.Log.Recs...)
+		for i := range recs {
+			recs[i].Head = c06Inst(c.S.Days[i], c.Mins[i], c.Layout)
+		}
+		c.S.Log.Recs = recs
+		ctx.Label("clock-format")
+	}
 	fmtArgs := []string{"--today", vFmtDay(c.Today, c.Layout)}
 	fmtEnv := map[string]string{}
 	if c.Layout != "" && c.Layout != "2006/01/02" {
@@ -179,23 +199,51 @@ func checkC06(c c06Case, ctx *vCtx) *vFailure {
 		d := c.S.Days[i]
 		return (!hasLo || d >= lo) && (!hasHi || d <= hi)
 	}
+	btext := func(b c06Bound, k int) string { return b.text(c.Layout) }
+	if c.Clock {
+		// instants: minutes since day 0; keywords stand for midnight (--today is given as a midnight)
+		bmin := func(b c06Bound, k int) int {
+			if b.Kind == "date" {
+				return c.BMins[k]
+			}
+			return 0
+		}
+		kB, kE := 0, 1
+		if cmd.sub && c.SB.Kind != "" {
+			kB = 2
+		}
+		if cmd.sub && c.SE.Kind != "" {
+			kE = 3
+		}
+		loI, hiI := lo*1440+bmin(effB, kB), hi*1440+bmin(effE, kE)
+		sel = func(i int) bool {
+			ti := c.S.Days[i]*1440 + c.Mins[i]
+			return (!hasLo || ti >= loI) && (!hasHi || ti <= hiI)
+		}
+		btext = func(b c06Bound, k int) string {
+			if b.Kind == "date" {
+				return c06Inst(b.Day, c.BMins[k], c.Layout)
+			}
+			return b.Kind
+		}
+	}
 	bOpt, eOpt := "-b", "-e"
 	if c.LongOpt {
 		bOpt, eOpt = "--begin", "--end"
 	}
 	var global, sub []string
 	if c.GB.Kind != "" {
-		global = append(global, bOpt, c.GB.text(c.Layout))
+		global = append(global, bOpt, btext(c.GB, 0))
 	}
 	if c.GE.Kind != "" {
-		global = append(global, eOpt, c.GE.text(c.Layout))
+		global = append(global, eOpt, btext(c.GE, 1))
 	}
 	if cmd.sub {
 		if c.SB.Kind != "" {
-			sub = append(sub, bOpt, c.SB.text(c.Layout))
+			sub = append(sub, bOpt, btext(c.SB, 2))
 		}
 		if c.SE.Kind != "" {
-			sub = append(sub, eOpt, c.SE.text(c.Layout))
+			sub = append(sub, eOpt, btext(c.SE, 3))
 		}
 	}
 	cmdArgs := make([]string, len(cmd.args))
@@ -275,10 +323,17 @@ var c06Zones = []string{"UTC", "America/New_York", "Asia/Tokyo", "Pacific/Kiriti
 
 const c06Base = 40 // first day of the window (2021-02-10); month boundary: use 56..61 in some cases
 
+// dates far from the log: "open" bounds people write to mean "everything since / until", and the edges of
+// what a 64-bit nanosecond count can hold (1677-09-21 .. 2262-04-11)
+var c06FarDays = []int{vDaysFromCivil(1, 1, 1), vDaysFromCivil(1000, 1, 1), vDaysFromCivil(1582, 10, 15), vDaysFromCivil(1677, 9, 20), vDaysFromCivil(1677, 9, 21), vDaysFromCivil(1677, 9, 22), vDaysFromCivil(1800, 1, 1),
+	vDaysFromCivil(1969, 12, 31), vDaysFromCivil(1970, 1, 1), vDaysFromCivil(2038, 1, 19), vDaysFromCivil(2038, 1, 20), vDaysFromCivil(2100, 12, 31), vDaysFromCivil(2262, 4, 11), vDaysFromCivil(2262, 4, 12), vDaysFromCivil(2262, 4, 13), vDaysFromCivil(3000, 1, 1), vDaysFromCivil(9999, 12, 31)}
+
 func genC06Bound(t *rapid.T, base int, today int, label string) c06Bound {
-	switch rapid.IntRange(0, 9).Draw(t, label+".kind") {
+	switch rapid.IntRange(0, 10).Draw(t, label+".kind") {
 	case 0, 1:
 		return c06Bound{}
+	case 10:
+		return c06Bound{Kind: "date", Day: c06FarDays[rapid.IntRange(0, len(c06FarDays)-1).Draw(t, label+".far")]}
 	case 2:
 		return c06Bound{Kind: []string{"today", "yesterday", "last7", "last30"}[rapid.IntRange(0, 3).Draw(t, label+".kw")]}
 	default:
@@ -292,7 +347,10 @@ func genC06(t *rapid.T) c06Case {
 	// 2021-09-05 Santiago, 2021-11-07 US)
 	// -3 and 1458: 31 December of a leap year next to 1 January
 	// -18631: 1969-12-29 .. 1970-01-03 (around the Unix epoch); -44197 and 28852: around 1 March 1900 and 2100 (no leap day)
-	base := []int{c06Base, 56, 362, 1150, 70, 84, 245, 308, -3, 1458, -18631, -44197, 28852}[rapid.IntRange(0, 12).Draw(t, "base")]
+	// 1677-09-19.. and 2262-04-09..: the days where a 64-bit nanosecond count since 1970 wraps; years 1, 1000 and 9999
+	bases := []int{c06Base, 56, 362, 1150, 70, 84, 245, 308, -3, 1458, -18631, -44197, 28852,
+		vDaysFromCivil(1677, 9, 19), vDaysFromCivil(2262, 4, 9), vDaysFromCivil(1, 2, 15), vDaysFromCivil(1000, 2, 26), vDaysFromCivil(9999, 12, 20), vDaysFromCivil(2038, 1, 17)}
+	base := bases[rapid.IntRange(0, len(bases)-1).Draw(t, "base")]
 	exact := true
 	lo := vLayoutOpts{Plain: true}
 	if rapid.IntRange(0, 4).Draw(t, "varlayout") == 0 {
@@ -323,6 +381,22 @@ func genC06(t *rapid.T) c06Case {
 		return c
 	}
 	c.Cmd = rapid.IntRange(0, len(c06Commands)-1).Draw(t, "cmd")
+	if layout == "" && rapid.IntRange(0, 2).Draw(t, "clock") == 0 {
+		// a date format with a clock component: the period is an interval of instants
+		minute := func(label string) int {
+			if rapid.Bool().Draw(t, label+".edge") {
+				return []int{0, 1, 719, 720, 1438, 1439}[rapid.IntRange(0, 5).Draw(t, label+".e")]
+			}
+			return rapid.IntRange(0, 1439).Draw(t, label+".m")
+		}
+		c.Clock, c.Layout = true, "2006-01-02 15:04"
+		for i := range c.S.Log.Recs {
+			c.Mins = append(c.Mins, minute(fmt.Sprintf("min%d", i)))
+		}
+		for k := range c.BMins {
+			c.BMins[k] = minute(fmt.Sprintf("bmin%d", k))
+		}
+	}
 	switch rapid.IntRange(0, 2).Draw(t, "position") {
 	case 0:
 		c.GB, c.GE = genC06Bound(t, base, today, "gb"), genC06Bound(t, base, today, "ge")
